@@ -12,10 +12,12 @@ if [ -z "$CHECKS" ]; then CHECKS=$(python3 -c "import json;print(json.load(open(
 git -C /repo apply "$DIR/patch.diff" || { echo "patch does not apply" >&2; exit 2; }
 trap 'git -C /repo checkout -- . ; git -C /repo clean -fdq -- lib command bin e2e 2>/dev/null' EXIT
 rc=0
+# evidence and replays of runs against a deliberately broken tree never land in /verif/evidence or /verif/replays
+export VERIF_OUT="/var/tmp/seeded-out/$SID"; mkdir -p "$VERIF_OUT"
 for c in $CHECKS; do
   echo "=== seeded $SID vs check $c"
   "$ROOT/check" "$c" --tier quick > "$DIR/result_$c.log" 2>&1; r=$?
-  grep -E "^VIOLATION|^KNOWN-FINDING|quick:" "$DIR/result_$c.log" | cut -c1-200 | head -12
+  grep -E "^VIOLATION|^  class=|quick:" "$DIR/result_$c.log" | cut -c1-260 | head -12
   echo "exit=$r"
   [ $r -eq 1 ] && rc=1
 done
